@@ -3,7 +3,7 @@ from ..gen import Gen
 from ..unit import run_unit
 from .. import camp_props, common
 from ..units.small import ComputeXn
-from ..units.step import Newton
+from ..units.step import Newton, GNewton
 from ..units.numeric import Transform
 
 PROP_FILES = ["props/C05.v"]
@@ -13,7 +13,7 @@ TECHNIQUE = "Coq proof + regenerated structural facts + correspondence"
 def run(rep, tier, seed, scratch):
     g = Gen(seed)
     common.facts_obligations(rep, 'C05', scratch)
-    for u in (ComputeXn(), Newton(), Transform()):
+    for u in (ComputeXn(), Newton(), GNewton(), Transform()):
         run_unit(rep, u, u.gen(g, tier), scratch)
     camp_props.run_single(rep, 'C05', tier, seed, 40, 300, allow={'newton_type': ['Simplified', 'Full', 'ActiveSet', 'Globalized']})
     camp_props.run_default_start(rep, tier, seed)
